@@ -176,8 +176,8 @@ func init() {
 			rule: "conflict-free messages over pools of up to 6 trip descriptors (distinct trip ids; NYCT-format, plain and multi-byte ids) and 5 vehicle descriptors (id, label only, licence plate only), a trip<->vehicle pairing expressed by the trip update, the vehicle position or both, id-less vehicle positions, alerts; every optional field independently present or absent; numeric edge values (0, +-1, int32/int64 extremes, uint64 above 2^63); start times/dates valid, normalisable (month 13, day 0) and malformed; 8 zones (nil, UTC, two fixed offsets, New_York, London, Kolkata, Lord_Howe; named zones with dates 1990-2034); every field of the result is compared with the model and with the wire values; distinct = distinct input JSON; non-trivial = at least 2 entities"}
 	}
 	props["C04"] = func() Prop {
-		return &rtProp{id: "C04", gen: rtGen{conflictFree: true}, nQuick: 8000, nThor: 300000, oracle: oracleC04, orders: 2,
-			rule: "conflict-free messages as for C02 (each trip associated with at most one vehicle and vice versa; association by trip update only, vehicle position only, or both; vehicle with id, label only, licence plate only, or no descriptor), entities shuffled, plus 2 further entity orders per case; the oracle walks Trip.Vehicle / Vehicle.Trip pointers (mutual, content equal to the list entries, nil exactly when unassociated); distinct = distinct input JSON; non-trivial = at least one association"}
+		return &rtProp{id: "C04", gen: rtGen{conflictFree: true, emptyTUVehicle: true}, nQuick: 8000, nThor: 300000, oracle: oracleC04, orders: 2,
+			rule: "conflict-free messages as for C02 (each trip associated with at most one vehicle and vice versa; association by trip update only, vehicle position only, or both; vehicle with id, label only, licence plate only, no descriptor, or a descriptor on the trip update that is present but empty; alerts naming several trips that have no entity of their own), entities shuffled, plus 2 further entity orders per case; the oracle walks Trip.Vehicle / Vehicle.Trip pointers (mutual, content equal to the list entries, nil exactly when unassociated); distinct = distinct input JSON; non-trivial = at least one association"}
 	}
 	props["C12"] = func() Prop {
 		return &rtProp{id: "C12", gen: rtGen{alertsOnly: false}, nQuick: 10000, nThor: 400000, oracle: oracleC12,
